@@ -1,7 +1,7 @@
 """C07 -- most compact applicable mode; requested mode honoured or refused."""
 import common, enc, gen, sweep, encprop, impl
 
-TOP = ['theories/Props/C07.v', 'theories/Tie/TieTables.v', 'theories/Tie/TieSeg.v']
+TOP = ['theories/Props/C07.v', 'theories/Tie/TieTables.v', 'theories/Tie/TieSeg.v', 'theories/Tie/TieMode.v', 'theories/Tie/TieSegMake.v']
 WANT = ('decode',)
 RULE = ('find_mode on ALL one- and two-byte inputs (65 792, exhaustive) against the extracted mode specification; encode with every '
         'requested mode on class-stratified contents (digits, 45-char alphabet, Shift JIS lead x trail classes, GB2312, bytes); '
